@@ -16,6 +16,7 @@ RULE = (
     "branched from), then the probe is asked on s again: the two probe results must be equal.  The probe only "
     "contains answers that are functions of the model set, so a difference means state leaked between branches.  "
     "Non-trivial: at least one branch step and one add on each side; distinct by history hash."
+    " Session 4: directed opening (independent constraints, non-exhausting spanning query, branch, connecting add, same variable set asked on the other side)."
 )
 ASSUMPTIONS = ["approximate frontends (SolverVSA, SolverHybrid) are judged by the probe pairs only, not against the reference"]
 
